@@ -66,10 +66,10 @@ var profiles = map[string]Profile{
 	"C05": {Name: "C05", FaultPct: 40, W: weights{"Set": 4, "SetRaw": 2, "Add": 5, "AddRaw": 2, "Delete": 6, "Remove": 4, "Update": 5, "DeleteWithXattrs": 4,
 		"WriteTombstoneWithXattrs": 4, "DeleteWithMeta": 3, "SetWithMeta": 2, "WriteCas": 7, "WriteResurrectionWithXattrs": 4, "WriteWithXattrs": 4,
 		"UpdateXattrs": 4, "SetXattrs": 4, "Incr": 2, "WriteSubDoc": 2, "RemoveXattrs": 1, "DeleteSubDocPaths": 1, "WriteUpdateWithXattrs": 3,
-		"Purge": 3, "Backfill": 5, "Touch": 1}, MinOps: 6, MaxOps: 30, MaxKeys: 2, MaxColl: 1, OnDiskPct: 10, ExpPct: 25},
+		"Purge": 3, "Backfill": 5, "Touch": 1}, SmallDoc: 12, MinOps: 6, MaxOps: 30, MaxKeys: 2, MaxColl: 1, OnDiskPct: 10, ExpPct: 25},
 	"C06": {Name: "C06", FaultPct: 40, W: weights{"Set": 4, "SetRaw": 1, "Add": 8, "AddRaw": 4, "Delete": 6, "Remove": 3, "Update": 5, "DeleteWithXattrs": 4,
 		"WriteTombstoneWithXattrs": 4, "DeleteWithMeta": 3, "SetWithMeta": 2, "WriteCas": 10, "WriteResurrectionWithXattrs": 6, "WriteWithXattrs": 6,
-		"UpdateXattrs": 3, "SetXattrs": 3, "Incr": 2, "WriteSubDoc": 2, "WriteUpdateWithXattrs": 2, "Purge": 3}, MinOps: 6, MaxOps: 30, MaxKeys: 2, MaxColl: 1, OnDiskPct: 10, ExpPct: 10},
+		"UpdateXattrs": 3, "SetXattrs": 3, "Incr": 2, "WriteSubDoc": 2, "WriteUpdateWithXattrs": 2, "Purge": 3}, SmallDoc: 12, MinOps: 6, MaxOps: 30, MaxKeys: 2, MaxColl: 1, OnDiskPct: 10, ExpPct: 10},
 	"C07": {Name: "C07", FaultPct: 50, W: weights{"Set": 3, "SetRaw": 2, "Add": 1, "Delete": 2, "WriteCas": 3, "Update": 2, "Incr": 1, "Touch": 1, "SetXattrs": 7, "UpdateXattrs": 7,
 		"RemoveXattrs": 6, "DeleteSubDocPaths": 6, "WriteWithXattrs": 9, "WriteTombstoneWithXattrs": 6, "WriteResurrectionWithXattrs": 5,
 		"WriteUpdateWithXattrs": 6, "DeleteWithXattrs": 4, "WriteSubDoc": 1, "Backfill": 1}, MinOps: 6, MaxOps: 30, MaxKeys: 2, MaxColl: 1, SmallDoc: 25, OnDiskPct: 10, ExpPct: 30},
@@ -97,12 +97,13 @@ var userXattrs = []string{"u1", "u2"}
 var allXattrNames = []string{"_sync", "_x2", "u1", "u2"}
 
 type gen struct {
-	r     *Rng
-	p     Profile
-	n     int
-	keys  []string
-	ncoll int
-	twoB  bool
+	r        *Rng
+	p        Profile
+	n        int
+	keys     []string
+	ncoll    int
+	twoB     bool
+	smallRun bool // this run has a small size limit
 }
 
 func (g *gen) uniq() int { g.n++; return g.n }
@@ -167,6 +168,14 @@ func (g *gen) midBody() string {
 }
 
 func (g *gen) xattrVal() string {
+	if g.smallRun && g.r.Chance(12) {
+		// a large value: with a small size limit the xattrs alone come near it
+		pad := make([]byte, 60+g.r.Intn(120))
+		for i := range pad {
+			pad[i] = 'x'
+		}
+		return fmt.Sprintf(`"%s"`, pad)
+	}
 	if g.p.ViewBodies && g.r.Chance(60) {
 		return fmt.Sprintf(`{"r":%d}`, 1+g.r.Intn(9))
 	}
@@ -556,7 +565,7 @@ func (g *gen) op(kind string) Op {
 	case "PutDDoc":
 		op.Key = []string{"dd1", "dd2"}[g.r.Intn(2)]
 		op.Xattrs = map[string]string{}
-		fams := []string{"F0", "F1", "F2", "F3", "F4:_count", "F4:_sum", "F1:_count", "F4"}
+		fams := []string{"F0", "F1", "F2", "F3", "F4:_count", "F4:_sum", "F1:_count", "F4", "F5"}
 		for i := 0; i < 1+g.r.Intn(2); i++ {
 			op.Xattrs[fmt.Sprintf("v%d", i+1)] = fams[g.r.Intn(len(fams))]
 		}
@@ -632,6 +641,7 @@ func GenE1(prop string, seed uint64) *Program {
 	g.ncoll = prog.NColl
 	if p.SmallDoc > 0 && r.Chance(p.SmallDoc) {
 		prog.MaxDoc = 120 + r.Intn(200)
+		g.smallRun = true
 	}
 	if r.Chance(p.TwoBucketsPct) {
 		prog.TwoBuckets, g.twoB = true, true
@@ -640,6 +650,25 @@ func GenE1(prop string, seed uint64) *Program {
 		// expiry must stay inside its collection: short deadlines and idle periods
 		g.p.ShortExp = true
 		g.p.W = g.p.W.with("Advance", 8)
+		p = g.p
+	}
+	switch prop {
+	case "C01", "C02", "C05", "C06", "C07", "C08", "C09", "C17", "C18":
+		if !prog.TwoBuckets && r.Chance(15) {
+			// documents whose expiry time is reached, and passed, while the history goes on: until the
+			// sweep has tombstoned a document it is live for every entry point alike
+			g.p.ShortExp = true
+			g.p.ExpPct = 60
+			g.p.W = g.p.W.with("Advance", 10)
+			p = g.p
+		}
+	}
+	if prop == "C12" && r.Chance(20) {
+		// documents expire between view queries: the index must drop them (and keep what a tombstone
+		// with xattrs still emits) although nobody wrote to the collection
+		g.p.ShortExp = true
+		g.p.ExpPct = 50
+		g.p.W = g.p.W.with("Advance", 10)
 		p = g.p
 	}
 	if prop == "C19" && r.Chance(25) {
@@ -685,7 +714,10 @@ func GenE1(prop string, seed uint64) *Program {
 		}
 	}
 	n := p.MinOps + r.Intn(p.MaxOps-p.MinOps+1)
-	if p.FaultPct > 0 && r.Chance(p.FaultPct/2) {
+	if p.FaultPct > 0 && !g.p.ShortExp && r.Chance(p.FaultPct/2) {
+		// (not in runs with near expiry deadlines: rosmar's retry sleeps with the bucket mutex held, and
+		// in this engine the expiry timer's goroutine then blocks on that mutex for real, which the
+		// bubble's fake clock cannot see through - the sleep would never end)
 		// cooperative fault point: the transaction of some operations is made to fail with BUSY right
 		// before COMMIT once or twice, which drives rosmar's retry loop (the operation must still
 		// take effect exactly once)
@@ -693,11 +725,11 @@ func GenE1(prop string, seed uint64) *Program {
 			prog.Faults = append(prog.Faults, FaultSpec{AtOp: r.Intn(n), Kind: 5, Offset: r.Intn(2)})
 		}
 	}
+	stmtFaults := 0
 	if p.FaultPct > 0 && r.Chance(p.FaultPct/3) {
-		// one statement of some operation fails (1-2 per run): the call must fail as a whole, or work
-		for i := 0; i < 1+r.Intn(2); i++ {
-			prog.Faults = append(prog.Faults, FaultSpec{AtOp: r.Intn(n), Kind: 6, Offset: r.Intn(24)})
-		}
+		// one statement of some operations fails (2-4 operations per run): each such call must fail as a
+		// whole, or work (planted below, once the operations are known)
+		stmtFaults = 2 + r.Intn(3)
 	}
 	if prog.OnDisk && p.FaultPct > 0 && r.Chance(p.FaultPct) {
 		// separate fault-injecting configuration: 1-3 one-shot disk faults inside operations
@@ -715,6 +747,32 @@ func GenE1(prop string, seed uint64) *Program {
 			}
 			t -= w[k]
 		}
+		// a write with a short relative expiry E is sometimes followed by an idle period that ends just
+		// before E seconds are over: if the write happened at a fraction of a second, the expiry time has
+		// then been reached while the sweep (armed in whole seconds from the write) has not run yet
+		if last := prog.Ops[len(prog.Ops)-1]; g.p.ShortExp && last.ExpKind == 1 && last.ExpVal >= 1 && last.ExpVal <= 5 && r.Chance(35) {
+			prog.Ops = append(prog.Ops, Op{Kind: "Advance", Dur: int(last.ExpVal) - 1, Amt: 900})
+		}
+	}
+	var queryOps []int
+	for i, o := range prog.Ops {
+		if o.Kind == "View" || o.Kind == "Query" || o.Kind == "Backfill" {
+			queryOps = append(queryOps, i)
+		}
+	}
+	for i := 0; i < stmtFaults; i++ {
+		off := r.Intn(24)
+		if r.Chance(40) {
+			off = r.Intn(90) // (view updates and xattr writes issue many statements)
+		}
+		at := r.Intn(len(prog.Ops))
+		if len(queryOps) > 0 && r.Chance(40) {
+			at = queryOps[r.Intn(len(queryOps))]
+			if r.Chance(50) {
+				off = 30 + r.Intn(40) // past the look-ups at the start of an index update, into its writes
+			}
+		}
+		prog.Faults = append(prog.Faults, FaultSpec{AtOp: at, Kind: 6, Offset: off})
 	}
 	return prog
 }
